@@ -775,7 +775,8 @@ class ASTListener(ModelicaListener):
         self.ast[ctx] = self.ast[ctx.string_comment()]
 
     def exitString_comment(self, ctx: ModelicaParser.String_commentContext):
-        self.ast[ctx] = ctx.getText()[1:-1]
+        # A comment may be a concatenation, "a" + "b"; strip the quotes of each part.
+        self.ast[ctx] = "".join(part.getText()[1:-1] for part in ctx.STRING())
 
     # ANNOTATIONS ==========================================================
 
